@@ -30,7 +30,7 @@ type Op struct {
 	Style  string `json:"style,omitempty"`  // expect: return | run+return | runandreturn | providers | wholefunc | none | run
 	Times  string `json:"times,omitempty"`  // expect: "" | once | twice | times3 | maybe
 	Match  string `json:"match,omitempty"`  // expect: exact | anything | mixed
-	Ref    int    `json:"ref,omitempty"`    // call: index (1-based) of the expect op (same task list order) whose arguments to use; 0 = fresh arguments (no expectation)
+	Ref    int    `json:"ref,omitempty"`    // call: index (1-based) of the expect op (same task list order) whose arguments to use; 0 = fresh arguments (no expectation); -k = fresh arguments shaped like Setup[k-1] (an Anything-matched shared expectation)
 	NArgs  int    `json:"nargs,omitempty"`  // number of variadic elements (-1 = draw)
 }
 
@@ -38,6 +38,7 @@ type Case struct {
 	Prop    string            `json:"prop"`
 	Key     string            `json:"key"` // registration key
 	Modes   map[string]string `json:"modes,omitempty"`
+	Setup   []Op              `json:"setup,omitempty"` // operations performed before the tasks start (shared expectations)
 	Tasks   [][]Op            `json:"tasks"`
 	Sched   simsync.Config    `json:"sched"`
 	NilRate int               `json:"nil_rate"`
